@@ -8,7 +8,10 @@ package ollamarunner
 // (VerifSubmit), because the handler itself needs an HTTP connection.
 
 import (
+	"context"
 	"encoding/hex"
+	"fmt"
+	"net/http"
 	"sync"
 	"time"
 
@@ -231,4 +234,31 @@ func (c *InputCache) VerifFind(prompt []int32) (slot int, numPast int32, after [
 		after = append(after, toks(x.Inputs))
 	}
 	return
+}
+
+// ---- concurrent stage: the real handler and the real run loop
+
+// VerifRun07 runs the real (*Server).run loop; run panics on any processBatch error, which is handed to onPanic.
+func (s *Server) VerifRun07(ctx context.Context, onPanic func(string)) {
+	defer func() {
+		if r := recover(); r != nil {
+			onPanic(fmt.Sprint(r))
+		}
+	}()
+	s.run(ctx)
+}
+
+// VerifCompletion07 is the real HTTP handler of POST /completion.
+func (s *Server) VerifCompletion07(w http.ResponseWriter, r *http.Request) { s.completion(w, r) }
+
+// VerifLiveSlotsUnlocked07 lists the cache slot of every live sequence WITHOUT taking s.mu: it is meant to be called from
+// the model's Forward, i.e. from inside processBatch, which holds the lock.
+func (s *Server) VerifLiveSlotsUnlocked07() []int {
+	var out []int
+	for _, q := range s.seqs {
+		if q != nil && q.cache != nil {
+			out = append(out, q.cache.Id)
+		}
+	}
+	return out
 }
